@@ -967,7 +967,35 @@ class PathEnumerator:
                 st.env.pop(s.name, None)
             return live
         if s.__class__.__name__ == "Match":
-            raise AnalysisError(f"unsupported statement kind `match` at line {s.lineno}")
+            # each case is a branch under an opaque condition (the pattern); names a pattern captures are bound to an opaque projection of the
+            # subject. Without an irrefutable last case, control may also fall through. (The loader's canonicalisation turns the simple
+            # forms into if / elif before this is reached; what arrives here has captures or sub-patterns.)
+            for st in live:
+                st.stmts.append(s)
+                st.events.extend(_events_of(s.subject, st.env, s))
+                subj = subst(s.subject, st.env)
+                irrefutable = False
+                for c in s.cases:
+                    b = st.fork()
+                    b.conds.append(Cond(c.pattern, None, "case"))
+                    for x in ast.walk(c.pattern):
+                        nm = getattr(x, "name", None)
+                        if isinstance(nm, str):
+                            b.env[nm] = syn("$match", subj, at=s)
+                        for nm2 in (getattr(x, "rest", None),):
+                            if isinstance(nm2, str):
+                                b.env[nm2] = syn("$match", subj, at=s)
+                    if c.guard is not None:
+                        b.events.extend(_events_of(c.guard, b.env, s))
+                        b.conds.append(Cond(c.guard, subst(c.guard, b.env), True))
+                    nxt += self._block(c.body, [b])
+                    if c.guard is None and isinstance(c.pattern, ast.MatchAs) and c.pattern.pattern is None:
+                        irrefutable = True
+                if not irrefutable:
+                    f = st.fork()
+                    f.conds.append(Cond(s, None, "skip"))
+                    nxt.append(f)
+            return nxt
         # a call of a NEW function (one the pinned tree does not have) as the whole value of a statement: its paths are spliced in,
         # so that "these lines were moved into a helper / the function was split in two" reaches the rules as the same paths
         sp = self._splice_target(s)
